@@ -443,6 +443,26 @@ def verifyGraphs {D R σ : Type} [DecidableEq D] (E : LoadEnv D R σ) (codec : N
     | none => false
     | some _ => verifyGraphs E codec dir gs
 
+/-! ### the record-level preflight of `verifyCollectionFragments` (duplicate ids, dangling endpoints)
+
+`nodeIDs := newNodeIDResolver(..)` is created inside the loop over graphs: its state is a function of the
+current graph only (`LoadEnv.init` is handed to every graph afresh by `verifyGraphs`). A node record `put`s
+its source id (a repeated id is refused), an edge record `resolve`s both endpoints against the ids seen so far
+in THIS graph. The numeric / fallback split of `nodeIDResolver` is an implementation detail of one set of ids. -/
+inductive IdRec where
+  | node (id : Str)
+  | edge (s e : Str)
+deriving DecidableEq, Repr
+
+def idCheck (seen : List Str) (_ : Phase) : IdRec → Option (List Str)
+  | .node id => if id ∈ seen then none else some (id :: seen)
+  | .edge s e => if s ∈ seen ∧ e ∈ seen then some seen else none
+
+def nodeIdsOf : List IdRec → List Str
+  | [] => []
+  | .node id :: rs => id :: nodeIdsOf rs
+  | .edge _ _ :: rs => nodeIdsOf rs
+
 inductive Ev (R : Type) where
   | verifiedAll
   | assertSchema (g : Str)
@@ -469,6 +489,37 @@ def graphBatches {D R σ : Type} (E : LoadEnv D R σ) (codec : Nat) (dir : Dir) 
   let nodeRecs := (g.files.filter (fun f => decide (f.phase = .nodes))).flatMap (recsOf E codec dir)
   (chunksOf E.batchSize nodeRecs.length nodeRecs).map (Ev.batch g.name .nodes) ++
   (g.files.filter (fun f => decide (f.phase = .edges))).map (fun f => Ev.batch g.name .edges (recsOf E codec dir f))
+
+/-! ### `validateExtractedCollection` (encrypted unpack): the extracted files against the manifest
+
+While extracting, `unpackTarFileTracked` records (compressed bytes, sha256) of every file under its SANITISED
+entry name. Afterwards: the sanitised manifest paths (plus `manifest.json`, duplicates refused) must be exactly
+the extracted names, and EVERY manifest file entry is looked up under its path AS SPELLED IN THE MANIFEST
+(`files[fileEntry.Path]`; a miss yields the zero value: 0 bytes, empty digest) and compared with the manifest's
+size and digest. A manifest path that is not already in sanitised form therefore misses and is refused. -/
+
+def manifestName : Str := ['m', 'a', 'n', 'i', 'f', 'e', 's', 't', '.', 'j', 's', 'o', 'n']
+
+def sanitizeAll : List Str → List Str → Option (List Str)
+  | [], acc => some acc.reverse
+  | p :: ps, acc => match sanitize p with
+    | .error _ => none
+    | .ok q => if q ∈ acc then none else sanitizeAll ps (q :: acc)
+
+/-- `archivePathsFromManifest` (unsorted) -/
+def expectedPaths {D : Type} (m : Man D) : Option (List Str) :=
+  sanitizeAll (manifestName :: m.files.map (·.path)) []
+
+abbrev Tracked (D : Type) := List (Str × (Int × D))
+def Tracked.get {D : Type} (t : Tracked D) (p : Str) : Option (Int × D) := (t.find? (fun e => decide (e.1 = p))).map (·.2)
+
+def validateExtracted {D : Type} [DecidableEq D] (emptySha : D) (m : Man D) (files : Tracked D) : Bool :=
+  match expectedPaths m with
+  | none => false
+  | some exp =>
+    files.all (fun e => decide (e.1 ∈ exp)) && exp.all (fun p => (files.get p).isSome) &&
+    m.files.all (fun f => decide (((files.get f.path).getD (0, emptySha)).1 = f.cbytes) &&
+                          decide (((files.get f.path).getD (0, emptySha)).2 = f.sha))
 
 inductive LErr where
   | manifest | verify | schema | notEmpty
